@@ -388,9 +388,50 @@ def r_reshape_passthrough(c):
             "variables: lowering reshape((0, 2) -> (0, 2)) fails with AssertionError")
 
 
+def r_concat_offsets(c):
+    """concatenate: operand i is read at (index - offset_i) where offset_i is the
+    total length of the operands before it, i.e. the UPPER bound of operand i-1.
+    Whatever fills the list of offsets is taken from the list of upper bounds (the
+    running sum), never from an operand's own length"""
+    m = c.model
+    from pta.pat import find
+    fd = m.resolve_method(TOIL, "map_concatenate")[1]
+    where = m.loc(m.module_of(fd), fd)
+    pairs = find(fd, "$lb, $ub = $L[$i], $U[$i]")
+    if len(pairs) != 1:
+        raise AnalysisError("anchor vanished: (lower, upper) bound lookup in map_concatenate")
+    L, U = pairs[0]["$L"], pairs[0]["$U"]
+    feeds = []
+    for x in ast.walk(fd):
+        if isinstance(x, (ast.Assign, ast.AnnAssign)) and x.value is not None:
+            tg = x.targets[0] if isinstance(x, ast.Assign) else x.target
+            if ast.unparse(tg) == L:
+                v = x.value
+                if isinstance(v, (ast.List, ast.Tuple)):
+                    feeds += list(v.elts)
+                else:
+                    feeds.append(v)
+        if isinstance(x, ast.Call) and ast.unparse(x.func) in (f"{L}.append", f"{L}.extend") \
+                and x.args:
+            feeds.append(x.args[0])
+    bad = [f for f in feeds if not (ast.unparse(f) == "0" or any(
+        isinstance(y, ast.Name) and y.id == U for y in ast.walk(f)))]
+    c.check(feeds and not bad, "R02-BIND", "ToIndexLambdaMixin.map_concatenate",
+            "offsets-are-the-running-sum", where,
+            f"the subscript offsets `{L}` are filled with `{m.frag(bad[0], 50) if bad else None}`, "
+            f"which is not taken from the upper bounds `{U}`: the offset of the third and "
+            "later operands is the length of ONE earlier operand instead of all of them")
+    # ... and the upper bounds accumulate
+    acc = find(fd, f"{U}.append({U}[$i - 1] + $a.shape[$e.axis])") \
+        + find(fd, f"{U} = list(accumulate($$lens))")
+    c.check(len(acc) == 1, "R02-BIND", "ToIndexLambdaMixin.map_concatenate",
+            "upper-bounds-accumulate", where,
+            f"the upper bounds `{U}` are not a running sum of the operands' lengths")
+
+
 SPEC = Spec(
     prop="C02",
-    rules=[r_total, r_meta, r_consume, r_bind, r_sibling, r_domain, r_sibling_adv, r_reshape_passthrough],
+    rules=[r_total, r_meta, r_consume, r_bind, r_sibling, r_domain, r_sibling_adv, r_reshape_passthrough, r_concat_offsets],
     floors={"R02-TOTAL": 30, "R02-META": 70, "R02-CONSUME": 20, "R02-BIND": 14,
             "R02-DOMAIN": 3, "R02-SIBLING": 4},
     explanation=(
